@@ -11,7 +11,7 @@ import ast
 import re
 
 from sa.consteval import ConstEval, NotConstant
-from sa.excast import EscapeAnalysis, Site, norm
+from sa.paths import Engine, NeedFork, Unsupported, exc_covered, explore, show_sv, strip_epoch
 from sa.hdlcmodel import HdlcModel
 from sa.hdlcref import buffer_contracts as hdlc_buffer, skeleton as hdlc_skeleton
 from sa import p1model
@@ -42,148 +42,377 @@ def strip_cast(text):
     return re.sub(r"cast\(int,([^()]+)\)", r"\1", text)
 
 
+def _optional_attrs(M):
+    """attribute names that are Optional-annotated properties / fields of the message and frame classes"""
+    out = set()
+    for key in (("common", "MeterMessageBase"), ("hdlc", "HdlcFrame"), ("hdlc", "HdlcFrameHeader"), ("dlde", "DataReadout")):
+        c = M.classes.get(key)
+        if c is None:
+            continue
+        for name, f in c.methods.items():
+            if f.kind == "property" and f.node.returns is not None and M.ann_optional(f.node.returns):
+                out.add(name)
+    return out
+
+
+def _walk(sv):
+    if isinstance(sv, tuple):
+        yield sv
+        for x in sv:
+            yield from _walk(x)
+
+
+class Discharger:
+    """decides whether a recorded exception site can actually raise on its path"""
+
+    def __init__(self, M, ce, facts):
+        self.M, self.ce, self.facts = M, ce, facts
+
+    def len_lower(self, base, guards):
+        """lower bound of len(base) implied by the guards (and by callee postconditions)"""
+        lo = 0
+        b0 = strip_epoch(base)
+        while b0[0] == "call" and b0[1] in ("bytes", "bytearray") and len(b0[2]) == 1:
+            b0 = b0[2][0]
+        if self.facts.get("pop_line") and self.facts["pop_line"](b0):
+            lo = 1  # a popped line is LF-terminated, hence non-empty (E-SEQ contract of the buffer's pop)
+        for g, pol, _ in guards:
+            gs = strip_epoch(g)
+            if gs[0] != "cmp" or gs[3][0] != "c" or not isinstance(gs[3][1], int) or isinstance(gs[3][1], bool):
+                continue
+            t = gs[2]
+            if not (t[0] == "len" and _same_seq(strip_epoch(t[1]), b0)):
+                continue
+            k, op = gs[3][1], gs[1]
+            if op == "LtE" and not pol:
+                lo = max(lo, k + 1)
+            elif op == "Lt" and not pol:
+                lo = max(lo, k)
+            elif op == "Eq" and pol:
+                lo = max(lo, k)
+            elif op == "Eq" and not pol and k == 0:
+                lo = max(lo, 1)
+        for g, pol, _ in guards:  # truthiness of the sequence itself
+            if _same_seq(strip_epoch(g), b0) and pol:
+                lo = max(lo, 1)
+        return lo
+
+    def index_ok(self, site, guards):
+        sub = site[3]
+        base, idx = sub[1], sub[2]
+        if idx[0] == "c" and isinstance(idx[1], int):
+            k = idx[1]
+            inner = strip_epoch(base)
+            if inner[0] == "slice" and inner[3] is None and inner[2] is not None and inner[2][0] == "c" and isinstance(inner[2][1], int) and inner[2][1] < 0 and k == 0:
+                return "length guard on the sliced sequence" if self.len_lower(inner[1], guards) >= 1 else None
+            if inner[0] == "slice" and inner[2] is not None and inner[2][0] == "c" and isinstance(inner[2][1], int) and inner[2][1] < 0 and inner[3] is None and 0 <= k < -inner[2][1]:
+                return "length guard on the sliced sequence" if self.len_lower(inner[1], guards) >= -inner[2][1] else None
+            need = k + 1 if k >= 0 else -k
+            if self.len_lower(base, guards) >= need:
+                return "dominating length guard / callee postcondition"
+            if inner[0] == "tuple" and len(inner[1]) >= need:
+                return "literal tuple"
+            if inner[0] == "call" and isinstance(inner[1], str) and (inner[1].endswith(".group") or inner[1].endswith(".split") and k == 0 or inner[1].endswith(".groups")):
+                return "regex group tuple / first element of str.split()"
+            if inner[0] in ("c",) and isinstance(inner[1], (tuple, list, str, bytes)) and len(inner[1]) >= need:
+                return "constant sequence"
+            return None
+        # masked index into a constant table
+        i0 = strip_epoch(idx)
+        if i0[0] == "op" and i0[1] == "BitAnd":
+            mask = next((x[1] for x in (i0[2], i0[3]) if x[0] == "c" and isinstance(x[1], int)), None)
+            tab = strip_epoch(base)
+            tv = None
+            if tab[0] == "c" and isinstance(tab[1], (list, tuple)):
+                tv = tab[1]
+            elif tab[0] == "f0" and tab[1][0] == "class":
+                try:
+                    tv = self.ce.class_const(tab[1][1][0], tab[1][1][1], tab[2])
+                except NotConstant:
+                    tv = None
+            if mask is not None and isinstance(tv, (list, tuple)) and len(tv) > mask:
+                return f"masked index (& {hex(mask)}) into a table of {len(tv)} entries"
+        if i0[0] == "iter" and i0[1][0] == "call" and i0[1][1] == "range":
+            ra = i0[1][2]
+            hi = ra[-1] if len(ra) >= 2 else ra[0]
+            if hi[0] == "len" and _same_seq(strip_epoch(hi[1]), strip_epoch(base)):
+                return "index ranges over range(.., len(sequence))"
+        # i < len(base) on the path (and i is a position, i.e. compared / derived non-negative)
+        for g, pol, _ in guards:
+            gs = strip_epoch(g)
+            if gs[0] == "cmp" and gs[3][0] == "len" and _same_seq(strip_epoch(gs[3][1]), strip_epoch(base)):
+                if (gs[1] == "Lt" and pol and gs[2] == i0) or (gs[1] == "GtE" and not pol and gs[2] == i0):
+                    return "dominating `index < len(sequence)` test"
+            if gs[0] == "cmp" and gs[2][0] == "len" and _same_seq(strip_epoch(gs[2][1]), strip_epoch(base)):
+                if (gs[1] == "LtE" and not pol and gs[3] == i0) or (gs[1] == "Gt" and pol and gs[3] == i0) or (gs[1] == "Lt" and not pol and gs[3] == i0 and False):
+                    return "dominating `len(sequence) > index` test"
+        return None
+
+    def decode_ok(self, site, guards):
+        recv = strip_epoch(site[3])
+        for g, pol, _ in guards:
+            gs = strip_epoch(g)
+            if gs[0] == "call" and gs[1] == ".isascii" and pol and (gs[2][0] == recv or _derived_from(recv, gs[2][0])):
+                return "dominating isascii() test on the decoded bytes"
+        return None
+
+
+def _same_seq(a, b):
+    """same sequence value up to copies that keep the length (bytes(), as_bytes of a frame)"""
+    def norm(x):
+        while True:
+            if x[0] == "call" and x[1] in ("bytes", "bytearray") and len(x[2]) == 1:
+                x = x[2][0]
+            elif x[0] in ("prop", "f0") and len(x) >= 3 and x[2] == "as_bytes":
+                x = x[1]
+            else:
+                return x
+    return norm(a) == norm(b)
+
+
+def _derived_from(sv, root):
+    """sv is root, a slice of it or a strip of it (sub-sequences of ASCII bytes are ASCII)"""
+    while True:
+        if sv == root:
+            return True
+        if sv[0] == "slice":
+            sv = sv[1]
+        elif sv[0] == "call" and isinstance(sv[1], str) and sv[1] in (".strip", ".lstrip", ".rstrip") and sv[2]:
+            sv = sv[2][0]
+        else:
+            return False
+
+
 def check(src, rep):
     M = Model(src)
     ce = ConstEval(M)
     rep.count("modules", len(src.text))
     rep.assumptions += ["logging calls do not raise (their arguments are analysed)", "the destination queue is unbounded (put_nowait does not raise QueueFull)",
                         "general AttributeError/TypeError freedom is type safety and is only decided for Optional-annotated properties/fields on the read path (no type checker available)"]
-    rep.explanation = ("Decided: the exception-escape set of the readers' read(), of is_valid/payload/as_bytes/message_type of both message classes and of the protocols' data_received/"
-                       "message_received is empty. Every partial built-in applied to wire text (bytes.decode, int(text, 16), float(text)), every explicit raise/assert and every arithmetic, ordering "
-                       "or indexing use of an Optional value is either enclosed by a handler for its class or dominated by a validating test - including code inside except handlers and logging "
-                       "arguments; every index subscript on these paths is discharged by a length guard, a mask into a table of proven size, a callee precondition established at all call sites, or "
-                       "the collected-lines typestate of the P1 reader; the read loops consume one octet / one line per iteration. NOT decided: AttributeError/TypeError freedom in general.")
+    rep.explanation = ("Decided: no exception can leave the readers' read(), is_valid/payload/as_bytes/message_type of both message classes, or the protocols' data_received/message_received. "
+                       "The entry points are path-enumerated with callees inlined (E-PATH); every potential exception site on a path - index subscripts, bytes.decode, int(text, base), float(text), "
+                       "next() without default, explicit raise/assert, constructors of repository classes, and arithmetic/ordering/len/subscript on a value that is None on that path or that comes from an "
+                       "Optional-annotated property without a dominating None test - is either enclosed by a handler for its class (handler bodies and logging arguments are code too) or discharged: "
+                       "length guards on the same sequence value, the E-SEQ postcondition of the P1 buffer's pop (lines are LF-terminated, hence non-empty), masks into constant tables, "
+                       "isascii() guards, the collected-lines typestate for the DataReadout constructor's two preconditions; the HDLC accessors are evaluated in every frame world (E-ACC) and raise in none; "
+                       "the read loops consume one octet / one line per iteration. NOT decided: AttributeError/TypeError freedom in general.")
     # models used by discharge rules
     try:
         hm = HdlcModel(src)
-        hdlc_pop_ok = any(r.kind == "ok" and r.instance == "pop" for r in hdlc_buffer(hm)) and any(r.kind == "ok" and r.instance == "is_available" for r in hdlc_buffer(hm))
+        hb = hdlc_buffer(hm)
+        hdlc_pop_ok = any(r.kind == "ok" and r.instance == "pop" for r in hb) and any(r.kind == "ok" and r.instance == "is_available" for r in hb)
+        hm_why = None
     except Undecided as e:
         hm, hdlc_pop_ok, hm_why = None, False, str(e)
     pm = p1model.P1Model(src)
     p1_rows = {r.instance: r.kind for r in p1model.conformance(pm)}
     p1_lines_typestate = all(p1_rows.get(k) == "ok" for k in ("ident", "end", "keep", "ignore-nonslash", "ignore-nonident"))
     p1_pop_ok = any(r.kind == "ok" and r.instance == "pop" for r in p1model.buffer_contracts(pm))
-
-    def discharge(site: Site, fn, node, facts):
-        # ---- DataReadout constructed by the P1 reader: '/' first and '!' present by the collected-lines typestate
-        if site.fn == "dlde.DataReadout.__init__" and fn.qual == "dlde.ModeDReader.read" and site.kind in ("raise", "subscript"):
-            if not p1_lines_typestate:
-                return False
-            if site.kind == "raise":
-                # only the two preconditions the typestate establishes: first byte is the start character, an end character exists
-                init = M.funcs.get("dlde.DataReadout.__init__")
-                cond = None
-                if init is not None:
-                    parents = {c: p for p in ast.walk(init.node) for c in ast.iter_child_nodes(p)}
-                    for r in ast.walk(init.node):
-                        if isinstance(r, ast.Raise) and r.lineno == site.line:
-                            cur = r
-                            while cur in parents and not isinstance(parents[cur], ast.If):
-                                cur = parents[cur]
-                            if cur in parents:
-                                cond = norm(parents[cur].test)
-                okc = cond is not None and (re.fullmatch(r"self\.\w+\[0\]!=START_CHARACTER_HEX", cond) or re.fullmatch(r"self\.\w+==-1", cond))
-                if not okc:
-                    return False
-            return "collected-lines typestate: non-empty, first kept line admitted under the '/' test, emitted only after keeping a line admitted under the '!' test"
-        if site.kind != "subscript" or not isinstance(node, ast.Subscript) or site.fn != fn.qual:
-            return False
-        recv = carrier(norm(node.value))
-        idx = node.slice
-        itxt = strip_cast(norm(idx))
-        lens = []
-        for fct in facts:
-            m = LEN_FACT.match(strip_cast(fct))
-            if m:
-                lens.append((carrier(m.group(1)), m.group(2), m.group(3)))
-        # local alias: frame_data = self._frame.as_bytes
-        aliases = {recv}
-        for a in ast.walk(fn.node):
-            if isinstance(a, ast.Assign) and len(a.targets) == 1 and isinstance(a.targets[0], ast.Name) and a.targets[0].id == recv:
-                aliases.add(carrier(norm(a.value)))
-        # x[-1:][0] : first element of a non-empty tail slice
-        if isinstance(node.value, ast.Subscript) and isinstance(node.value.slice, ast.Slice) and isinstance(idx, ast.Constant) and idx.value == 0:
-            base = carrier(norm(node.value.value))
-            for r, op, k in lens:
-                if r == base and k.isdigit() and ((op == ">" and int(k) >= 0) or (op == ">=" and int(k) >= 1)):
-                    return "length guard on the sliced sequence"
-        if isinstance(idx, ast.Constant) and isinstance(idx.value, int) and idx.value >= 0:
-            for r, op, k in lens:
-                if r in aliases and k.isdigit() and ((op == ">" and int(k) >= idx.value) or (op == ">=" and int(k) >= idx.value + 1) or (op == "==" and int(k) >= idx.value + 1)):
-                    return "dominating length guard"
-            if idx.value >= 1 and fn.qual == "dlde.ModeDReader.read" and recv in ("line",):
-                site.definite = True
-                site.text += " (a popped line is only known to be non-empty: shorter lines raise IndexError)"
-                return False
-            # first element of a line returned by the P1 buffer's pop (LF-terminated, hence non-empty)
-            if idx.value == 0 and fn.qual == "dlde.ModeDReader.read" and p1_pop_ok and any(f in facts for f in (f"{recv}isnotNone", f"not{recv}isNone")):
-                return "callee postcondition: pop() returns only LF-terminated (non-empty) lines"
-        else:
-            for r, op, k in lens:
-                if r in aliases and op == ">" and (k == itxt or (k.startswith(itxt + "+") and k[len(itxt) + 1:].isdigit())):
-                    return "dominating length guard on the same position"
-                if r in aliases and op == ">" and "+" in itxt and k.startswith(itxt.split("+")[0] + "+") and k.split("+")[-1].isdigit() and itxt.split("+")[-1].isdigit() and int(k.split("+")[-1]) >= int(itxt.split("+")[-1]):
-                    return "dominating length guard on a later position"
-            for fct in facts:
-                f2 = strip_cast(fct)
-                if any(f2 == f"{itxt}<len({a})" or f2 == f"{itxt}<len({a}.as_bytes)" for a in aliases | {recv + ".as_bytes"}):
-                    return "early exit when the index reaches the length"
-            # masked index into a table of proven size
-            if isinstance(idx, ast.Name):
-                defs = [a for a in ast.walk(fn.node) if isinstance(a, ast.Assign) and len(a.targets) == 1 and isinstance(a.targets[0], ast.Name) and a.targets[0].id == idx.id]
-                if len(defs) == 1 and isinstance(defs[0].value, ast.BinOp) and isinstance(defs[0].value.op, ast.BitAnd):
-                    mask = next((x.value for x in (defs[0].value.left, defs[0].value.right) if isinstance(x, ast.Constant) and isinstance(x.value, int)), None)
-                    try:
-                        tab = ce.eval(node.value, {}, fn.mod) if not isinstance(node.value, ast.Name) else None
-                    except NotConstant:
-                        tab = None
-                    if mask is not None and isinstance(tab, list) and len(tab) > mask:
-                        return f"masked index (& {hex(mask)}) into a table of {len(tab)} entries"
-        return False
-
-    ea = EscapeAnalysis(M, discharge)
-    n_entry = 0
-    bad = 0
-    unproven = 0
+    OPT = _optional_attrs(M)
+    D = Discharger(M, ce, {"pop_line": (lambda sv: p1_pop_ok and pm.is_line(sv))})
+    n_entry = n_sites = 0
+    bad = unproven = 0
     reported = set()
-    for q, kind in ENTRY:
+    census = {}
+
+    def report(definite, cls, kind, fnq, line, text, entry):
+        nonlocal bad, unproven
+        key = (cls, kind, fnq, line)
+        if key in reported:
+            return
+        reported.add(key)
+        if definite:
+            bad += 1
+            rep.violation("R1", fnq, f"escape:{cls}:{kind}", f"{cls} can leave {entry.split('.', 1)[1]}() on line noise: {text}", src.file(fnq.split('.')[0]), line, witness=f"entry point {entry}")
+        else:
+            unproven += 1
+            rep.undecide(f"R1 unproven index subscript {text} in {fnq} (line {line}) on the path of {entry}: not discharged by the catalogue")
+
+    def ctor_ok(site, guards, entry):
+        """escapes of a repository constructor called on this path"""
+        _, ck, cline, cfn, cguards, cdetail, cargs = site[3]
+        if ck == ("dlde", "DataReadout") and entry == "dlde.ModeDReader.read" and p1_lines_typestate:
+            # the two preconditions the collected-lines typestate establishes: the first byte is '/', an end character exists; and the first-byte read itself
+            for g, pol, _ in reversed(cguards):
+                gs = strip_epoch(g)
+                if gs[0] == "cmp" and gs[1] == "Eq" and gs[2][0] == "sub" and gs[2][2] == ("c", 0) and gs[3] == ("c", 0x2F) and not pol:
+                    return "collected-lines typestate: the first kept line was admitted under the '/' test"
+                if gs[0] == "cmp" and gs[3] in (("c", -1), ("c", 0)) and gs[2][0] == "call" and str(gs[2][1]).endswith(".find") and gs[2][2][-1:] == (("c", 0x21),) and ((gs[1] == "Eq" and pol) or (gs[1] == "Lt" and pol)):
+                    return "collected-lines typestate: a readout is emitted only after keeping a line admitted under the '!' test"
+                break
+            if site[2] == "ctor:index" and cdetail is not None and cdetail[2] == ("c", 0):
+                return "collected-lines typestate: the collected lines are non-empty"
+        return None
+
+    def scan(paths, entry, fnq_default):
+        nonlocal n_sites
+        for p in paths:
+            # explicit raises / asserts that end a feasible path
+            for e in p.effects:
+                if e[0] == "raise":
+                    cls = str(e[1]).split("(")[0].split(".")[-1]
+                    hs = e[3] if len(e) > 3 else ()
+                    if cls == "reraise":
+                        continue
+                    if not exc_covered(cls, hs):
+                        report(True, cls, "raise" if cls != "AssertionError" else "assert", e[4] if len(e) > 4 else fnq_default, e[2], f"raise {cls}" if cls != "AssertionError" else "assert not dominated by its condition", entry)
+                if e[0] != "xsite":
+                    continue
+                n_sites += 1
+                _, cls, what, detail, line, hs, ng, fnq = e
+                if exc_covered(cls, hs):
+                    census[(fnq, line, what)] = "enclosed by a handler"
+                    continue
+                guards = p.guards[:ng]
+                how = None
+                if what == "index":
+                    how = D.index_ok(e, guards)
+                    if how is None:
+                        census.setdefault((fnq, line, what), None)
+                        k = detail[2]
+                        if k[0] == "c" and isinstance(k[1], int) and k[1] >= 1 and D.len_lower(detail[1], guards) >= 1:
+                            report(True, cls, "subscript", fnq, line, f"{show_sv(detail)[:60]} (the sequence is only known to be non-empty: shorter ones raise IndexError)", entry)
+                        else:
+                            report(False, cls, "subscript", fnq, line, show_sv(detail)[:60], entry)
+                        continue
+                elif what == "decode":
+                    how = D.decode_ok(e, guards)
+                    if how is None:
+                        report(True, cls, "decode", fnq, line, f"{show_sv(detail)[:50]}.decode(...) on bytes that are not known to be ASCII", entry)
+                        continue
+                elif what.startswith("ctor:"):
+                    how = ctor_ok(e, guards, entry)
+                    if how is None:
+                        ck = detail[1]
+                        report(True, cls, "raise" if what == "ctor:raise" else what[5:], detail[3], detail[2], f"{cls} from the constructor of {ck[1]} ({what[5:]})", entry)
+                        continue
+                elif what in ("int()", "float()"):
+                    report(True, cls, what, fnq, line, f"{what[:-2]}({show_sv(detail)[:50]}, ...) on wire text", entry)
+                    continue
+                elif what == "next()":
+                    report(True, cls, what, fnq, line, "next() without default", entry)
+                    continue
+                else:  # None misuse
+                    report(True, cls, "optional", fnq, line, f"{what.replace('none-', '')} with a value that is None on this path", entry)
+                    continue
+                census[(fnq, line, what)] = how
+            # Optional-annotated properties used without a dominating None test
+            for gi, (g, pol, ln) in enumerate(p.guards):
+                for t in _walk(g):
+                    use = None
+                    if t and t[0] == "len" and len(t) > 1:
+                        use = t[1]
+                    elif t and t[0] == "cmp" and t[1] in ("Lt", "LtE", "Gt", "GtE"):
+                        use = next((x for x in (t[2], t[3]) if isinstance(x, tuple) and x and x[0] in ("prop", "f0") and len(x) >= 3 and x[2] in OPT), None)
+                    elif t and t[0] == "op" and t[1] in ("Add", "Sub", "Mult"):
+                        use = next((x for x in (t[2], t[3]) if isinstance(x, tuple) and x and x[0] in ("prop", "f0") and len(x) >= 3 and x[2] in OPT), None)
+                    if not (isinstance(use, tuple) and use and use[0] in ("prop", "f0") and len(use) >= 3 and use[2] in OPT):
+                        continue
+                    u0 = strip_epoch(use)
+                    nonnull = False
+                    for g2, pol2, _ in p.guards[:gi]:
+                        g2s = strip_epoch(g2)
+                        if (g2s[0] == "cmp" and g2s[1] == "Is" and _strip_ver(g2s[2]) == _strip_ver(u0) and g2s[3] == ("c", None) and not pol2) or (_strip_ver(g2s) == _strip_ver(u0) and pol2):
+                            nonnull = True
+                    if not nonnull:
+                        report(True, "TypeError", "optional", fnq_default, ln, f"len()/ordering/arithmetic with {show_sv(use)[:60]} (Optional) without a dominating `is not None` test", entry)
+
+    def engine(**kw):
+        return Engine(M, inline_depth=8, fork_props=True, split_ifexp=True, track_exc=True, **kw)
+
+    # ---- readers: read() with the helpers of the reader inlined, buffer / frame methods as contracts
+    for q in ("hdlc.HdlcFrameReader.read", "dlde.ModeDReader.read"):
         fn = M.funcs.get(q)
         if fn is None:
             raise Undecided(f"anchor vanished: {q}")
         n_entry += 1
-        # message accessors of DataReadout are analysed for objects built by the reader; the constructor itself is covered through ModeDReader.read
-        esc = ea.escapes(fn)
-        for s in esc:
-            if s.key() in reported:
-                continue
-            reported.add(s.key())
-            if s.definite:
-                bad += 1
-                rep.violation("R1", s.fn, f"escape:{s.cls}:{s.kind}", f"{s.cls} can leave {q.split('.', 1)[1]}() on line noise: {s.text}", src.file(s.fn.split('.')[0]), s.line, witness=f"entry point {q}")
-            else:
-                unproven += 1
-                rep.undecide(f"R1 unproven index subscript {s.text} in {s.fn} (line {s.line}) on the path of {q}: not discharged by the catalogue")
-    subs = {}
-    for f, l, t, h in ea.subscripts:
-        subs[(f, l, t)] = subs.get((f, l, t)) or h
-    for k in subs:
-        if not subs[k]:
-            subs[k] = "discharged at the call site that reaches it (callee precondition / collected-lines typestate)" if not unproven else None
-    n_sub = len(subs)
-    n_dis = sum(1 for h in subs.values() if h)
+        try:
+            E = engine(keep_props={"is_expected_length", "is_good_ffc"})
+            scan(explore(E, fn), q, q)
+        except (Unsupported, NeedFork) as ex:
+            raise Undecided(f"{q} outside the analysed subset: {ex}")
+    # the sub-objects the readers call: buffers (E-SEQ contracts) and HdlcFrame.append / header update (E-ACC worlds + FCS table mask below)
+    for q in ("hdlc.HdlcFrame.append", "hdlc.HdlcFrameHeader.update"):
+        fn = M.funcs.get(q)
+        if fn is None:
+            raise Undecided(f"anchor vanished: {q}")
+    # ---- message accessors
+    from sa.accsem import AccSem, World, run_all, worlds
+    F, H = M.classes.get(("hdlc", "HdlcFrame")), M.classes.get(("hdlc", "HdlcFrameHeader"))
+    if F is None or H is None:
+        raise Undecided("anchor vanished: hdlc.HdlcFrame / HdlcFrameHeader")
+    hdr_fields = [a for a, t in F.field_types.items() if t == ("hdlc", "HdlcFrameHeader")]
+    back = [a for a, t in H.field_types.items() if t == ("hdlc", "HdlcFrame")]
+    lenfn = F.methods.get("__len__")
+    store = None
+    if lenfn:
+        for n_ in ast.walk(lenfn.node):
+            if isinstance(n_, ast.Attribute) and isinstance(n_.value, ast.Name) and n_.value.id == "self":
+                store = n_.attr
+    cp_field = None
+    upd = H.methods.get("update")
+    if upd:
+        for n_ in ast.walk(upd.node):
+            if isinstance(n_, ast.Assign) and isinstance(n_.targets[0], ast.Attribute) and isinstance(n_.value, ast.Call) and isinstance(n_.value.func, ast.Attribute) \
+                    and isinstance(n_.value.func.value, ast.Name) and n_.value.func.value.id == "self" and n_.value.func.attr in H.methods and not n_.value.args:
+                cp_field = n_.targets[0].attr
+    if not (len(hdr_fields) == 1 and len(back) == 1 and store and cp_field):
+        raise Undecided("cannot bind the HDLC frame/header roles for the accessor worlds")
+    A = AccSem(M, ("hdlc", "HdlcFrame"), ("hdlc", "HdlcFrameHeader"), {"header": hdr_fields[0], "frame": back[0]}, store, cp_field, keep={"destination_address", "source_address", "is_good_ffc"})
+    nw = 0
+    for name in ("is_valid", "payload", "as_bytes", "message_type"):
+        if name not in F.methods and M.find_method(("hdlc", "HdlcFrame"), name) is None:
+            raise Undecided(f"anchor vanished: HdlcFrame.{name}")
+        n_entry += 1
+        if name not in F.methods:
+            continue
+        for n, c in worlds() + [(n, None) for n in (10, 12)]:
+            for good in (True, False):
+                w = World(n, c, {("frame", "is_good_ffc"): good})
+                nw += 1
+                for r in run_all(A, ("hdlc", "HdlcFrame"), name, w):
+                    if r[0] == "raise":
+                        report(True, r[1] if r[1] != "explicit" else "Exception", "accessor", f"hdlc.HdlcFrame.{name}", F.methods[name].node.lineno,
+                               f"for a frame of {n} octet(s) with control position {c} the accessor raises", f"hdlc.HdlcFrame.{name}")
+                    elif r[0] == "undef":
+                        raise Undecided(f"HdlcFrame.{name} outside the frame worlds: {r[1]}")
+    rep.count("frame_worlds", nw)
+    for name in ("is_valid", "payload", "as_bytes", "message_type"):
+        q = f"dlde.DataReadout.{name}"
+        fn = M.funcs.get(q)
+        if fn is None:
+            if M.find_method(("dlde", "DataReadout"), name) is None:
+                raise Undecided(f"anchor vanished: {q}")
+            n_entry += 1
+            continue
+        n_entry += 1
+        try:
+            scan(explore(engine(inline_subobjects=True), fn), q, q)
+        except (Unsupported, NeedFork) as ex:
+            raise Undecided(f"{q} outside the analysed subset: {ex}")
+    # ---- protocols
+    for q in ("meter_connection.SmartMeterBaseProtocol.data_received", "meter_connection.SmartMeterMessageProtocol.message_received",
+              "meter_connection.SmartMeterMessagePayloadProtocol.message_received"):
+        fn = M.funcs.get(q)
+        if fn is None:
+            raise Undecided(f"anchor vanished: {q}")
+        n_entry += 1
+        try:
+            scan(explore(engine(), fn), q, q)
+        except (Unsupported, NeedFork) as ex:
+            raise Undecided(f"{q} outside the analysed subset: {ex}")
     rep.count("entry_points", n_entry)
-    rep.count("functions_analysed", len(ea.visited))
-    rep.count("index_subscripts", n_sub)
-    rep.extra["subscript_census"] = [f"{f}:{l} {t} -> {h}" for (f, l, t), h in sorted(subs.items())]
+    rep.count("exception_sites", n_sites)
+    rep.extra["site_census"] = [f"{f}:{l} {w} -> {h}" for (f, l, w), h in sorted(census.items(), key=lambda kv: (kv[0][0], kv[0][1], kv[0][2]))]
     if not bad and not unproven:
-        rep.ok("R1", f"{n_entry} entry points", f"{len(ea.visited)} functions on their paths: no definite escape; {n_dis} index subscripts discharged "
-               f"({', '.join(sorted({str(h).split(':')[0] for h in subs.values() if h}))[:200]})")
-        for (f, l, t), h in sorted(subs.items()):
-            rep.ok("R1", f"subscript {f}:{t}", h)
+        rep.ok("R1", f"{n_entry} entry points", f"{n_sites} potential exception sites on their paths, each enclosed by a handler for its class or discharged "
+               f"({', '.join(sorted({str(h).split(':')[0] for h in census.values() if h}))[:300]}); HDLC accessors raise in none of {nw} frame worlds")
     from sa.cross import include
     include(rep, src, "C16", {"R1", "R2", "R3"}, "R3", "after noise the reader remains usable")
+    include(rep, src, "C01", {"R2", "R4"}, "R1", "HdlcFrame.append / the header update and the address scan stay inside the frame (no index error while a frame is built)")
+    include(rep, src, "C03", None, "R1", "the FCS table has an entry for every masked index (the register update cannot raise)")
     rep.floor("entry points", n_entry, 13)
-    rep.floor("index subscripts on the read paths", n_sub, 8)
+    rep.floor("exception sites on the read paths", n_sites, 8)
     # ---------------------------------------------------------------- R2 loops progress
     if hm is None:
         if not bad:
@@ -197,16 +426,16 @@ def check(src, rep):
         rep.ok("R2", "read loops", "each HDLC step consumes exactly one octet under the loop test; each P1 step pops one line and the loop exits exactly when no complete line is left")
     else:
         rep.violation("R2", "reader loops", "no-progress", "a read loop iteration does not consume exactly one octet / line (or the P1 loop has no exit on an empty buffer)", src.file("hdlc"), 1)
-    # address scan advances by one and exits at the frame end (checked structurally in C01/R4; here: loop has an exit on the index bound)
-    H = M.classes.get(("hdlc", "HdlcFrameHeader"))
-    ga = H.methods.get("_get_address") if H else None
-    if ga is not None:
-        wl = [n for n in ast.walk(ga.node) if isinstance(n, ast.While)]
-        ok = all(any(isinstance(x, ast.AugAssign) and isinstance(x.op, ast.Add) for x in ast.walk(w)) and any(isinstance(x, ast.Return) for x in ast.walk(w)) for w in wl)
-        if ok:
-            rep.ok("R2", "address scan", "advances by one per iteration and returns at the frame end or at the terminating octet")
-        else:
-            rep.violation("R2", "hdlc.HdlcFrameHeader._get_address", "scan-progress", "the address scan loop can iterate without advancing", src.file("hdlc"), ga.node.lineno)
+
+
+def _strip_ver(sv):
+    if isinstance(sv, tuple):
+        if sv and sv[0] == "prop" and len(sv) == 4:
+            return ("prop", _strip_ver(sv[1]), sv[2])
+        if sv and sv[0] == "len" and len(sv) == 3:
+            return ("len", _strip_ver(sv[1]))
+        return tuple(_strip_ver(x) for x in sv)
+    return sv
 
 
 def thorough(src, rep):
